@@ -103,7 +103,15 @@ ScribbleThenEncodeAgain == /\ status = "ok" /\ Len(hist) = 1
                            /\ codes' = Encode(enc, text)
                            /\ hist' = Append(hist, <<"scribble-reencode", enc>>) /\ UNCHANGED <<text, enc, status>>
 
-NextAll == Next \/ ReverseRows \/ ScribbleThenEncodeAgain
+\* EncodedArray(encoded, B): labelling already encoded data with another alphabet is refused (encoded_array.py:270-272), and
+\* as_encoded_array([x, y]) with y encoded in B refuses to collect arrays of different encodings into one (:520-523).
+\* (L0 allows either outcome "same text" or "raises"; the mechanism always raises because the alphabets differ.)
+Rewrap(B)  == /\ status = "ok" /\ B # enc /\ Len(hist) = 1 /\ status' = "raised"
+              /\ hist' = Append(hist, <<"rewrap", B>>) /\ UNCHANGED <<text, enc, codes>>
+Collect(B) == /\ status = "ok" /\ B # enc /\ Len(hist) = 1 /\ status' = "raised"
+              /\ hist' = Append(hist, <<"collect", B>>) /\ UNCHANGED <<text, enc, codes>>
+
+NextAll == Next \/ ReverseRows \/ ScribbleThenEncodeAgain \/ (\E B \in Names : Rewrap(B)) \/ (\E B \in Names : Collect(B))
 SpecAll == Init /\ [][NextAll]_vars
 
 \* ---------------------------------------------------------------- properties
